@@ -91,15 +91,16 @@ theorem countMatch_le_one_of_nodup (x : Pt) : ∀ rows : List Row, (rows.map (·
     · exact ih
 
 theorem record_distinct (s : St) (xo x : Pt) (y sdv : Rat) (rd : Bool) (s' : St) (v : Rat) (idx : Option Nat)
-    (h : record s xo x y (some sdv) rd = .ok (s', v, idx)) (hd : (s.rows.map (·.x)).Nodup) :
+    (h : record s xo x y (some sdv) rd = .ok (s', v, idx)) (hd : (s.rows.map (·.x)).Nodup) (hhe0 : s.he = true) :
     (s'.rows.map (·.x)).Nodup ∧ s'.he = s.he := by
   rcases record_cases s xo x y (some sdv) rd s' v idx h with ⟨i, _, _, h2, _, _⟩ | ⟨_, _, h2, _, _⟩ | ⟨i, sd', _, _, _, h2, _⟩ | ⟨c, _, h1, h2, _, _, _⟩
   · subst h2; exact ⟨by rw [show (bumpN s.rows i).map (·.x) = s.rows.map (·.x) from modAt_map (fun r => { r with n := r.n + 1 }) (fun r => r.x) (fun _ => rfl) s.rows i]; exact hd, rfl⟩
   · subst h2; exact ⟨hd, rfl⟩
   · subst h2; exact ⟨by rw [show (modAt (fun r => mergeRow r y sd') s.rows i).map (·.x) = s.rows.map (·.x) from modAt_map (fun r => mergeRow r y sd') (fun r => r.x) (fun _ => rfl) s.rows i]; exact hd, rfl⟩
   · subst h2
-    rcases h1 with h1 | h1
+    rcases h1 with (h1 | h1) | h1
     · cases h1
+    · rw [hhe0] at h1; cases h1
     · refine ⟨?_, rfl⟩
       simp only [List.map_append, List.map_cons, List.map_nil]
       rw [List.nodup_append]
@@ -137,12 +138,16 @@ theorem call_valid_ok (s : St) (xo x : Pt) (out : Outcome) (rd : Bool) (h : out.
       | some i => exact ⟨_, _, _, rfl⟩
     | true =>
       simp only [Bool.not_true, Bool.false_eq_true, if_false]
-      cases firstMatch x s.rows with
-      | none => exact ⟨_, _, _, rfl⟩
-      | some i =>
-        simp only [Option.map_some]
-        have : ¬ countMatch x s.rows > 1 := by omega
-        simp only [this, if_false]
+      by_cases hhe1 : s.he = true
+      · simp only [if_pos hhe1]
+        cases firstMatch x s.rows with
+        | none => exact ⟨_, _, _, rfl⟩
+        | some i =>
+          simp only [Option.map_some]
+          have : ¬ countMatch x s.rows > 1 := by omega
+          simp only [this, if_false]
+          exact ⟨_, _, _, rfl⟩
+      · simp only [if_neg hhe1]
         exact ⟨_, _, _, rfl⟩
   cases out with
   | raises => simp [Outcome.valid] at h
@@ -159,7 +164,7 @@ theorem call_valid_ok (s : St) (xo x : Pt) (out : Outcome) (rd : Bool) (h : out.
     cases y <;> cases sd <;> simp only [Outcome.valid] at h <;> try (cases h)
     rename_i y sd
     obtain ⟨s', v, idx, hr⟩ := keySome y sd (hinv h)
-    obtain ⟨hd', hhe⟩ := record_distinct s xo x y sd rd s' v idx hr (hinv h)
+    obtain ⟨hd', hhe⟩ := record_distinct s xo x y sd rd s' v idx hr (hinv h) h
     exact ⟨{ s' with fc := s'.fc + 1 }, { fval := v, fsd := some sd, idx := idx }, by simp [call, h, hr], hhe, fun _ => hd'⟩
 
 /-- FIRST FAULT ENDS THE RUN: if the `k`-th call is the first one whose outcome is invalid, the
